@@ -775,20 +775,31 @@ def probe_packets(doc):
 _EXCLUDE_TOP = {"ns", "xtce_ns_prefix", "xtce_schema_uri"}
 
 
-def fingerprint(obj, top=True, _depth=0):
-    if _depth > 40:
+def fingerprint(obj, top=True, _depth=0, _memo=None):
+    """Neutral nested-tuple view of an object graph. Each object is described once: a revisit (shared object, back
+    reference, cycle) becomes ('<ref>', class name, ordinal of first visit), which keeps the walk linear and makes
+    aliasing part of the view."""
+    if _memo is None:
+        _memo = {}
+    if _depth > 60:
         return ("<deep>",)
     if obj is None or isinstance(obj, (bool, int, str, bytes)):
         return (type(obj).__name__, obj)
     if isinstance(obj, float):
         return ("float", repr(obj))
+    key = id(obj)
+    if key in _memo:
+        return ("<ref>", type(obj).__name__, _memo[key])
+    is_container = isinstance(obj, (dict, list, tuple, set, frozenset))
+    if not (is_container and not obj):          # (empty containers may be interned / shared; they carry no identity)
+        _memo[key] = len(_memo)
     if isinstance(obj, dict):
-        return ("dict",) + tuple((fingerprint(k, False, _depth + 1), fingerprint(v, False, _depth + 1))
+        return ("dict",) + tuple((fingerprint(k, False, _depth + 1, _memo), fingerprint(v, False, _depth + 1, _memo))
                                  for k, v in obj.items())
     if isinstance(obj, (list, tuple)):
-        return (type(obj).__name__,) + tuple(fingerprint(x, False, _depth + 1) for x in obj)
+        return (type(obj).__name__,) + tuple(fingerprint(x, False, _depth + 1, _memo) for x in obj)
     if isinstance(obj, (set, frozenset)):
-        return ("set",) + tuple(sorted(repr(fingerprint(x, False, _depth + 1)) for x in obj))
+        return ("set",) + tuple(sorted(repr(fingerprint(x, False, _depth + 1, dict(_memo))) for x in obj))
     if callable(obj) and not hasattr(obj, "__dict__") or type(obj).__name__ in ("function", "method", "builtin_function_or_method"):
         res = []
         for x in (0, 1, 2):
@@ -797,26 +808,26 @@ def fingerprint(obj, top=True, _depth=0):
             except Exception as e:      # noqa: BLE001
                 res.append(type(e).__name__)
         return ("callable",) + tuple(res)
-    d = getattr(obj, "__dict__", None)
-    if d is None:
-        slots = [n for c in type(obj).__mro__ for n in getattr(c, "__slots__", ())]
-        if slots:
-            return (type(obj).__name__,) + tuple((n, fingerprint(getattr(obj, n, None), False, _depth + 1))
-                                                 for n in slots if not n.startswith("_"))
-        r = repr(obj)
-        return (type(obj).__name__, r if " at 0x" not in r else "<object>")      # never an address
     import dataclasses
     import functools
-    # declared state only: for dataclasses their fields; never values that a functools.cached_property (or any other
-    # descriptor of the class) computed and parked in the instance dict; never private / name-mangled attributes
+    # state = declared dataclass fields (read with getattr: works for __slots__ classes too) + public instance
+    # attributes that are not class-level descriptors (a functools.cached_property / property parks its value under its own
+    # name: that is a cache, not state) ; never _private or name-mangled attributes
+    d = getattr(obj, "__dict__", None)
+    names = []
     if dataclasses.is_dataclass(obj):
-        names = [f.name for f in dataclasses.fields(obj)]
-    else:
-        names = sorted(d)
+        names += [f.name for f in dataclasses.fields(obj)]
+    for c in type(obj).__mro__:
+        for n in getattr(c, "__slots__", ()):
+            if n not in names and n not in ("__dict__", "__weakref__"):
+                names.append(n)
+    if d is not None:
+        names += [n for n in sorted(d) if n not in names]
+    if not names and d is None:
+        r = repr(obj)
+        return (type(obj).__name__, r if " at 0x" not in r else "<object>")      # never an address
     items = []
     for kname in names:
-        if kname not in d:
-            continue
         if top and kname in _EXCLUDE_TOP:
             continue
         if kname.startswith("_"):
@@ -824,7 +835,11 @@ def fingerprint(obj, top=True, _depth=0):
         cls_attr = getattr(type(obj), kname, None)
         if isinstance(cls_attr, (functools.cached_property, property)):
             continue
-        items.append((kname, fingerprint(d[kname], False, _depth + 1)))
+        try:
+            val = getattr(obj, kname)
+        except AttributeError:
+            continue
+        items.append((kname, fingerprint(val, False, _depth + 1, _memo)))
     return (type(obj).__name__,) + tuple(items)
 
 
@@ -838,7 +853,7 @@ def canon_item(item):
     if isinstance(item, BaseException):
         pd = getattr(item, "partial_data", None)
         return ("ERR", type(item).__name__, canon_item(pd) if pd is not None else None)
-    if isinstance(item, dict):
+    if isinstance(item, dict) or (hasattr(item, "items") and hasattr(item, "keys") and not isinstance(item, (bytes, str))):
         rd = getattr(item, "raw_data", None)
         return ("PKT", tuple((k, canon_value(v)) for k, v in item.items()),
                 bytes(rd) if rd is not None else None, getattr(rd, "pos", None))
